@@ -169,7 +169,7 @@ def main(run):
         pairs.append(p)
     # the accessor tables are known only after `shoot new` ran: cases are generated now (they only need the types)
     for p in pairs:
-        p.cases = c05.gen_cases(run, p.spec, 4 if run.thorough() else 3, [0.0, 0.3, 0.6])
+        p.cases = c05.gen_cases(run, p.spec, 4 if run.thorough() else 3, [0.0, 0.3, 0.6], rt=False)   # round trips: C05 only
     mh.execute(run, pairs, shoot=shoot, par=4, tag="c15", pre=pre_shootnew)
     verdicts, guards = mh.coq_verdicts(run, pairs, tag="c15", shard_cases=120, par=4, fn="mismatches15", guard="pair_guard15")
     c05.report(run, pairs, verdicts, guards,
@@ -244,7 +244,7 @@ def replay(run, path):
         c.pop("obs", None)
         p.cases = [c]
     else:
-        p.cases = c05.gen_cases(run, r["spec"], 2, [0.0, 0.5])
+        p.cases = c05.gen_cases(run, r["spec"], 2, [0.0, 0.5], rt=False)
     mh.execute(run, [p], shoot=shoot, tag="replay", pre=pre_shootnew)
     if p.status != "ok":
         print("pair status:", p.status, p.shoot, p.errors)
